@@ -229,3 +229,43 @@ Section LapOrder.
     transitivity (1 * 1)%Qc; [ring|rewrite E; ring].
   Qed.
 End LapOrder.
+
+(* ---------------------------------------------------------------------- *)
+(*  the full statement for Laplacian Eigenmaps at Qc                        *)
+(* ---------------------------------------------------------------------- *)
+Theorem le_smallest_nonzero
+        (heat : nat -> nat -> Qc) (n : nat) (nbrs : list (list nat)) (k d : nat)
+        (Dm V : mat Qc) (lam : vec Qc) :
+  d + 1 <= n ->
+  (forall i q, i < n -> q < k -> nb_at nbrs i q < n) ->
+  (forall i q, i < n -> q < k -> (0 < heat i (nb_at nbrs i q))%Qc) ->
+  lconnected n nbrs k ->
+  msym n Dm ->
+  gen_contract n (matL heat k nbrs n) Dm V lam ->
+  (forall a b, a <= b -> b < n -> (lam a <= lam b)%Qc) ->
+  (forall c, c < n -> (0 <= lam c)%Qc) /\
+  (forall c, 1 <= c -> c < n -> (0 < lam c)%Qc) /\
+  (exists Y, le_embedding n d V = Some Y /\
+             (forall r c, Y r c = V r (1 + c)) /\
+             le_spec n d (matL heat k nbrs n) Dm Y (fun c => lam (1 + c))) /\
+  (forall c c', c < d -> d < c' -> c' < n -> (lam (1 + c)%nat <= lam c')%Qc).
+Proof.
+  intros Hd Hb Hpos Hconn HDs Hc Hasc.
+  assert (Hnn : forall c, c < n -> (0 <= lam c)%Qc).
+  { intros c Hc'. apply (gen_eigenvalues_nonneg heat n nbrs k Hb Hpos Dm V lam Hc c Hc'). }
+  assert (Hp : forall c, 1 <= c -> c < n -> (0 < lam c)%Qc).
+  { intros c H1 Hc'. destruct (Qcle_lt_or_eq _ _ (Hnn c Hc')) as [P|E]; [exact P|].
+    exfalso. symmetry in E.
+    assert (Z0 : lam 0 = 0%Qc).
+    { apply Qcle_antisym; [|apply Hnn; lia]. rewrite <- E. apply Hasc; lia. }
+    apply (zero_eigenvalue_simple heat n nbrs k Hb Hpos Dm V lam Hc Hconn 0 c); try lia; assumption. }
+  split; [exact Hnn|]. split; [exact Hp|]. split.
+  - apply (@le_embedding_normalised Qc QcOps QcField n d (matL heat k nbrs n) Dm V lam Hd).
+    + apply matL_sym_gen.
+    + intros i Hi. apply matL_row_sum_gen. exact Hi.
+    + exact HDs.
+    + exact Hc.
+    + intros c Hc' E.
+      apply (Qclt_not_eq _ _ (Hp (1 + c) ltac:(lia) ltac:(lia))). symmetry. exact E.
+  - intros c c' Hc1 Hc2 Hc3. apply Hasc; lia.
+Qed.
